@@ -118,8 +118,17 @@ def run_cases_both(cases, asan=False, jobs=16, per_case_timeout=60):
     """cases: [(cid, [op lines])] -> (M, {cid: c_records}, {cid: m_records}, crashes)"""
     texts = [(cid, "CASE %s\nRESET\n" % cid + "\n".join(ops) + "\n") for cid, ops in cases]
     M, couts, crashes = run_cases_raw("h_store", texts, asan=asan, jobs=jobs, per_case_timeout=per_case_timeout)
-    mout = run_m("".join(t for _, t in texts), M)
-    _, mrec = records(mout)
+    # the model side in parallel chunks as well (cases are independent: each starts with CASE / RESET); one serial run of the
+    # extracted model over a whole thorough tier exceeded its time limit once the per-cell coefficient sweeps were added
+    from concurrent.futures import ThreadPoolExecutor
+    build_model()
+    nch = max(1, min(len(texts), jobs))
+    chunks = ["".join(t for _, t in texts[i::nch]) for i in range(nch)]
+    with ThreadPoolExecutor(max_workers=jobs) as ex:
+        mouts = list(ex.map(lambda c: run_m(c, M, timeout=1800), chunks))
+    mrec = {}
+    for mo in mouts:
+        mrec.update(records(mo)[1])
     return M, couts, mrec, crashes
 
 
